@@ -431,6 +431,9 @@ func Inject(t *rapid.T, in Input, k int, allowed func(InjClass) bool) ([]byte, [
 			ins[off] = fmt.Sprintf(" //k%d\n", id)
 		default:
 			ins[off] = fmt.Sprintf(" # k%d\n", id)
+			if rapid.IntRange(0, 5).Draw(t, "bare") == 0 {
+				ins[off] = " #\n"
+			}
 		}
 		used = append(used, cl)
 	}
@@ -588,3 +591,6 @@ func OneLineForPhrase(f *ast.File, fset *gotoken.FileSet) bool {
 	})
 	return found
 }
+
+// IsXGoKind reports whether a node kind is XGo-specific.
+func IsXGoKind(name string) bool { return xgoKinds[name] }
